@@ -2,10 +2,10 @@
 # usage: ppv/seedconfirm.sh <Cxx> <n>   - independent confirmation of a sub-agent's seeded change /tmp/seed/out/Cxx/patch<n>.diff
 # Writes /tmp/seed/confirm/Cxx-<n>.json : demo with/without the patch, pinned baseline with the patch, own checks.
 ID=$1; N=$2
-OUT=/tmp/seed/out/$ID
+OUT=${SEED_OUT:-/tmp/seed/out}/$ID
 PATCH=$OUT/patch$N.diff; DEMO=$OUT/demo$N.py
-mkdir -p /tmp/seed/confirm
-RES=/tmp/seed/confirm/$ID-$N.json
+mkdir -p ${SEED_CONFIRM:-/tmp/seed/confirm}
+RES=${SEED_CONFIRM:-/tmp/seed/confirm}/$ID-$N.json
 WT=$(mktemp -d /tmp/ppv-confirm.XXXXXX); rmdir "$WT"
 git -C /repo worktree add --detach "$WT" HEAD >/dev/null 2>&1 || exit 2
 cd "$WT"
